@@ -50,9 +50,13 @@ ArgProbes    == { Probe("null-arg", <<Fun("f", <<Param("p", TyStr(NT(g[4], g[2])
                         SrcSetup(g[1], g[3]), <<Expr(New("K", <<SrcE(g[1], g[3])>>))>>, FALSE, OK4(g[1], g[2], g[3], g[4]), Note4(g[1], g[2], g[3], g[4])) : g \in Grid }
 \* the source must be visible inside the function: parameters of type T? / T
 ReturnProbes == { Probe("null-return", <<Fun("k", <<Param(VarName(NT(g[1], TRUE)), TyStr(NT(g[1], TRUE)), Absent)>>, TyStr(NT(g[4], g[2])), <<>>,
-                                          <<IF shape = "explicit" THEN Ret(SrcE(g[1], g[3])) ELSE Expr(SrcE(g[1], g[3]))>>)>>,
+                                          (CASE shape = "explicit" -> <<Ret(SrcE(g[1], g[3]))>> [] shape = "implicit" -> <<Expr(SrcE(g[1], g[3]))>>
+                                             \* the source as one arm of a conditional expression that is returned, directly and inside a guard
+                                             [] shape = "conditional" -> <<Ret(IfE(BoolL(TRUE), SrcE(g[1], g[3]), Lit(g[4])))>>
+                                             [] shape = "conditional-in-guard" -> <<If(BoolL(TRUE), <<Ret(IfE(BoolL(TRUE), SrcE(g[1], g[3]), Lit(g[4])))>>, <<>>), Ret(Lit(g[4]))>>
+                                             [] shape = "in-guard" -> <<If(BoolL(TRUE), <<Ret(SrcE(g[1], g[3]))>>, <<>>), Ret(Lit(g[4]))>>))>>,
                         <<>>, <<PrintS(StrL("x"))>>, FALSE, OK4(g[1], g[2], g[3], g[4]), Note4(g[1], g[2], g[3], g[4]) @@ [shape |-> shape])
-                  : g \in Grid, shape \in {"implicit", "explicit"} }
+                  : g \in Grid, shape \in {"implicit", "explicit", "conditional", "conditional-in-guard", "in-guard"} }
 \* two functions with textually equal bodies, one returning T?, the other T: both conform
 TwinProbes == { Probe("null-return-twin", <<Fun("tw1", <<>>, T \o "?", <<>>, <<IF shape = "explicit" THEN Ret(Lit(T)) ELSE Expr(Lit(T))>>),
                                             Fun("tw2", <<>>, T, <<>>, <<IF shape = "explicit" THEN Ret(Lit(T)) ELSE Expr(Lit(T))>>)>>,
